@@ -33,7 +33,9 @@ CLAIMS = {
    text="The integer logic of LogRule (parity, tables step/offset/c_0, num_terms, rule_index, richardson_step, method_order, "
         "flip, names) is regenerated from finite_difference.py into Lean on every run; theorem rule_tables_consistent "
         "(all n>=1, order>=1, unbounded, methods central/forward/backward/complex) proves spacing = richardson_step, the "
-        "selected row has exponent n, the first uncovered exponent is n+method_order, admissible parity, >=1 term; "
+        "selected row has exponent n, the first uncovered exponent is n+method_order, admissible parity, >=1 term; method_order_spec "
+        "(the delivered order is the requested order rounded down to a multiple of the spacing of the error terms, at least one multiple: never "
+        "capped, never a whole step short); "
         "fdRow_moments/fdRow_apply/fdRow_exact prove (any char-0 field, distinct nodes, proved distinct for real rho>1) that "
         "the rule extracts exactly the selected power of any expansion sum d_j h^(k_j) and leaves only powers "
         "n+method_order+q*richardson_step. Tie: translator + exhaustive grid of the translated functions vs the "
@@ -89,7 +91,7 @@ CLAIMS = {
         "call-path model (which guard lies on which path of Derivative/Gradient/Jacobian/Hessdiag/Hessian.__call__, directionaldiff, "
         "Residue.__init__, CStepGenerator) is hand-written. Theorems, unbounded in their integers: complex_misuse_raises (all five "
         "classes, complex/multicomplex, complex x or complex-valued f => ValueError), multicomplex_high_order_raises (n>2), "
-        "too_few_steps_raises, wrong_size_raises, directionaldiff/residue/path guards, fd_weights/fd_derivative guards (C15/C16), and "
+        "too_few_steps_raises, no_steps_raises (zero generated steps, every class), wrong_size_raises, directionaldiff/residue/path guards, fd_weights/fd_derivative guards (C15/C16), and "
         "valid_call_returns (no false rejection). Outcome is a sum type, so ValueError excludes a numeric result. Tie: the complete "
         "finite outcome table class x method x flags x dimension x n x order and a malformed stream, executed on the real classes.",
    technique="Lean 4 decision-logic theorems on translator-generated guards + exhaustive outcome-table correspondence"),
@@ -170,7 +172,9 @@ CLAIMS = {
         "symmetric Q satisfies that hypothesis for every n; hessian_constant_table (all later stages return Q[i][j]); hessdiag_exact "
         "(Hessdiag = n=2 pipeline on the line function, exact below 2 + method_order). hessComplex_quadratic (Ridout eq. 10 over C) and "
         "hessMulticomplex_quadratic (imag12 of a polynomial evaluated with the generated Bicomplex + and *, via the idempotent components) "
-        "give the same exactness for the complex-step and bicomplex formulas. Tie: all six difference functions on dyadic polynomials = "
+        "give the same exactness for the complex-step and bicomplex formulas. hessian_cells_generated / hessian_complex_cell_generated: the cell "
+        "expressions regenerated from the loop bodies of HessianDifferenceFunctions on every run are definitionally the modelled cells. "
+        "Tie: translator; all six difference functions on dyadic polynomials = "
         "the exact model (Rat, Gaussian rationals, generated Bicomplex ring over Gaussian rationals). Partial: rounding; non-quadratic f "
         "(search).",
    technique="Lean 4 proof (symmetry by construction, exactness on quadratics by ring identities) + exact correspondence on dyadic data"),
